@@ -55,36 +55,46 @@ ASSUMPTIONS = [
     "min width <= max width",
 ]
 REQUIRED_FEATURES = ["col:field-name-with-parenthesis", "col:fixed", "col:ranged", "col:default-width", "col:modifier", "col:break-by",
-                     "col:repeated-field", "col:hidden", "limits:none", "limits:star", "limits:1:1", "limits:2:0", "limits:3:3", "limits:2:2",
+                     "col:repeated-field", "col:hidden", "limits:none", "limits:star", "limits:1:1", "limits:2:0", "limits:3:3", "limits:2:2", "limits:2:None", "limits:None:1",
+                     "col:typed-field-explicit-1-999", "col:typed-field-default-width",
                      "window:truncated-though-records<=limits",
                      "state:fresh", "state:printed", "state:re-formatted", "state:printed-lines-skipped",
                      "op:rebuild-accepted", "op:set-own-fmt-accepted", "fmt:width-annotation", "fmt:limits-omitted"]
 
 # SQL-style field names with parentheses; 'size' is a prefix of 'size(kb)' up to the parenthesis
-FIELDS = ["id", "name", "st", "size", "size(kb)", "count(*)"]
+FIELDS = ["id", "name", "st", "size", "size(kb)", "count(*)", "code"]
+# 'code' has a field type with its own width limits: a column without widths means 4-8 for it, not 1-999
+CODE_WIDTHS = (4, 8)
 COLS = ["id:3", "name:5", "st:12",                     # fixed (name:5 truncates)
         "id:1-4", "name:2-6", "name:3-20", "st:4-30",    # ranged
         "id", "name", "st",                              # default widths
         "st/val", "st/name:3-20", "st/full:20",          # enum modifiers
         "id!:2", "st!", "st/name!:3-8", "name!",         # break-by
         "name:-1",                                       # hidden field
-        "size(kb)", "size(kb):2-12", "count(*)", "size:3"]   # field names containing '(' (sql columns)
+        "size(kb)", "size(kb):2-12", "count(*)", "size:3",   # field names containing '(' (sql columns)
+        "code:1-999", "code"]                            # typed field: explicit 1-999 vs the type's own 4-8
 COLS3 = ["size(kb)", "name:2-6", "name:3-20", "st", "st/val", "st/name!:3-8", "id!:2", "name!", "name:-1", "st:4-30"]
 # pairs over this sub-alphabet in the quick tier (all descriptions as single columns; all pairs in thorough)
 COLS2_QUICK = ["name:2-6", "name:3-20", "st", "st/val", "st/name:3-20", "id!:2", "st!", "st/name!:3-8",
-               "name!", "name:-1", "size(kb)", "count(*)"]
-LIMITS = {"none": "", "star": ";*", "1:1": ";1:1", "2:0": ";2:0", "3:3": ";3:3", "2:2": ";2:2"}
+               "name!", "name:-1", "size(kb)", "count(*)", "code:1-999"]
+LIMITS = {"none": "", "star": ";*", "1:1": ";1:1", "2:0": ";2:0", "3:3": ";3:3", "2:2": ";2:2",
+          "2:None": "", "None:1": ""}
+# one-sided limits can only be given through the constructor argument `limits=`; the documentation allows
+# "a tuple of two optional integers" and records are hidden only when both are set
+ARG_LIMITS = {"2:None": (2, None), "None:1": (None, 1)}
 # (initial limits, record set).  '3:3' x big and '2:2' x four are the window where, with a break-by column,
 # the empty break lines use up visible slots: n_first + n_last + 1 - #break lines < #records <= n_first + n_last,
 # i.e. the table is truncated although it has no more records than the limits allow lines.
 COMBOS = [("none", "small"), ("none", "big"), ("star", "big"), ("1:1", "small"), ("1:1", "big"), ("2:0", "big"),
-          ("3:3", "big"), ("2:2", "four")]
+          ("3:3", "big"), ("2:2", "four"), ("2:None", "big"), ("None:1", "big")]
 RECORDS = {
-    "small": [(1, "ab", 10, 7, 1234, 3), (2, "abcdefgh", 10, 70, 12, 11), (3, "abc", 999, 700, 5, 2)],
-    "big": [(1, "ab", 10, 7, 1, 3), (22, "abcdefghij", 10, 70, 123456, 11), (333, "abc", 999, 7, 12, 2),
-            (4, None, 7, 7000, 1, 1234567), (5, "abcdefg", 20, 7, 1234, 5), (6, "a", 20, 70, 2, 3)],
-    "four": [(1, "ab", 10, 7, 1, 3), (1, "abcdefghi", 10, 70, 12345, 12), (2, "abc", 999, 7, 12, 2),
-             (3, "abc", 7, 700, 1, 1)],
+    "small": [(1, "ab", 10, 7, 1234, 3, "x1"), (2, "abcdefgh", 10, 70, 12, 11, "never-seen"),
+              (3, "abc", 999, 700, 5, 2, "abcde")],
+    "big": [(1, "ab", 10, 7, 1, 3, "x1"), (22, "abcdefghij", 10, 70, 123456, 11, "abcdefghijkl"),
+            (333, "abc", 999, 7, 12, 2, "abcde"), (4, None, 7, 7000, 1, 1234567, "y"),
+            (5, "abcdefg", 20, 7, 1234, 5, "abcdefghi"), (6, "a", 20, 70, 2, 3, "z9")],
+    "four": [(1, "ab", 10, 7, 1, 3, "x1"), (1, "abcdefghi", 10, 70, 12345, 12, "abcdefghijkl"),
+             (2, "abc", 999, 7, 12, 2, "abc"), (3, "abc", 7, 700, 1, 1, "q")],
 }
 OTHER_FMT = "name:2-7,id!:3"
 # (fmt = ";" and fmt = ";;" are applied in *every* state by invariant (c); as transitions they lead to the
@@ -231,11 +241,16 @@ def render(table):
 
 
 def new_table(spec, enum, fmt=None):
-    from ak.ppobj import PPTable
+    """The table of `spec`; with `fmt` given: a table rebuilt from that format string alone."""
+    from ak.ppobj import PPTable, FieldType
     tup, lim, rec = spec
+    kw = {}
     if fmt is None:
         fmt = ",".join(tup) + LIMITS[lim]
-    return PPTable(list(RECORDS[rec]), fields=list(FIELDS), fields_types={"st": enum}, fmt=fmt, header="T")
+        if lim in ARG_LIMITS:
+            kw["limits"] = ARG_LIMITS[lim]
+    types = {"st": enum, "code": FieldType(min_width=CODE_WIDTHS[0], max_width=CODE_WIDTHS[1])}
+    return PPTable(list(RECORDS[rec]), fields=list(FIELDS), fields_types=types, fmt=fmt, header="T", **kw)
 
 
 class Life:
@@ -425,6 +440,8 @@ def explore_table(spec, depth, acc):
             tfeats.add("col:modifier")
         if "(" in name:
             tfeats.add("col:field-name-with-parenthesis")
+        if name == "code":
+            tfeats.add("col:typed-field-explicit-1-999" if lo == 1 else "col:typed-field-default-width")
         if brk:
             tfeats.add("col:break-by")
         if name in fields_seen and lo != -1:
